@@ -10,7 +10,9 @@ import (
 	"os"
 	"sort"
 	"strconv"
+	"strings"
 	"sync"
+	"sync/atomic"
 	"time"
 )
 
@@ -268,3 +270,29 @@ func ChildMain(units map[string]UnitFunc) {
 	p.Write(true)
 	os.Exit(0)
 }
+
+// SlowLog is a logger (a dependency the consumer supplies) whose sink is slow for the messages that match one of the given
+// prefixes of the format string: it sleeps before returning. Log calls sit between a check and the update that depends on it in
+// several places; a slow sink widens exactly those windows without touching the code.
+type SlowLog struct {
+	Prefixes []string
+	Delay    time.Duration
+	Hits     *int64
+}
+
+func (l SlowLog) slow(format string) {
+	for _, p := range l.Prefixes {
+		if strings.HasPrefix(format, p) {
+			if l.Hits != nil {
+				atomic.AddInt64(l.Hits, 1)
+			}
+			time.Sleep(l.Delay)
+			return
+		}
+	}
+}
+func (l SlowLog) DebugEnabled() bool                { return true }
+func (l SlowLog) Debugf(f string, a ...interface{}) { l.slow(f) }
+func (l SlowLog) Infof(f string, a ...interface{})  { l.slow(f) }
+func (l SlowLog) Warnf(f string, a ...interface{})  { l.slow(f) }
+func (l SlowLog) Errorf(f string, a ...interface{}) { l.slow(f) }
